@@ -98,7 +98,7 @@ func (presentationDefinition PresentationDefinition) ResolveConstraintsFields(cr
 		// Find the input descriptor
 		var inputDescriptor InputDescriptor
 		for _, curr := range presentationDefinition.InputDescriptors {
-			if curr.Id == inputDescriptorID {
+			if curr != nil && curr.Id == inputDescriptorID {
 				inputDescriptor = *curr
 				break
 			}
@@ -140,6 +140,10 @@ func (presentationDefinition PresentationDefinition) matchConstraints(vcs []vc.V
 	var candidates []Candidate
 
 	for _, inputDescriptor := range presentationDefinition.InputDescriptors {
+		if inputDescriptor == nil {
+			// can be the case for definitions received from a remote party ("input_descriptors": [null])
+			continue
+		}
 		// we create an empty Candidate. If a VC matches, it'll be attached to the Candidate.
 		// if no VC matches, the Candidate will have an nil VC which is detected later on for SubmissionRequirement rules.
 		match := Candidate{
@@ -277,6 +281,9 @@ outer:
 func (presentationDefinition PresentationDefinition) groups() []groupCandidates {
 	groups := make(map[string]groupCandidates)
 	for _, inputDescriptor := range presentationDefinition.InputDescriptors {
+		if inputDescriptor == nil {
+			continue
+		}
 		for _, group := range inputDescriptor.Group {
 			existing, ok := groups[group]
 			if !ok {
@@ -535,7 +542,12 @@ func matchFilter(filter Filter, value interface{}) (bool, interface{}, error) {
 		if err != nil {
 			return false, nil, err
 		}
-		match, err := re.FindStringMatch(value.(string))
+		stringValue, isString := value.(string)
+		if !isString {
+			// e.g. an array of which none of the elements matches
+			return false, nil, nil
+		}
+		match, err := re.FindStringMatch(stringValue)
 		if err != nil {
 			return false, nil, err
 		}
